@@ -67,6 +67,7 @@ pub struct C07 {
     prefixes: Vec<String>,
     plain: Lazy<Loaded>,
     cur: Lazy<Loaded>,
+    session: Lazy<Loaded>,
 }
 
 impl C07 {
@@ -80,11 +81,11 @@ impl C07 {
         let mut prefixes: Vec<String> = vec![String::new()];
         prefixes.extend(d.prefixes.iter().map(|p| p.0.clone()));
         let mut fams = Fams::default();
-        fams.add("bundled database: config x prefix x name x plural", vec![2, prefixes.len() as u64, names.len() as u64, 2]);
+        fams.add("bundled database: config x prefix x name x plural", vec![3, prefixes.len() as u64, names.len() as u64, 2]);
         fams.add("all sub-databases of the colliding pool", vec![1 << POOL.len()]);
         fams.add("second load redefining names: every subset of 7 redefinitions as one extra file", vec![1 << REDEF.len()]);
         fams.add("third load: every ordered pair of redefinitions as two extra files", vec![(REDEF.len() * REDEF.len()) as u64]);
-        C07 { fams, names, prefixes, plain: Lazy::new(), cur: Lazy::new() }
+        C07 { fams, names, prefixes, plain: Lazy::new(), cur: Lazy::new(), session: Lazy::new() }
     }
 }
 
@@ -256,7 +257,7 @@ impl Space for C07 {
         Meta {
             id: "C07",
             level: "exploration",
-            rule: "every string prefix+name[+s] over all prefixes (and none) x all unit and base-unit names of the bundled database, with and without the currency overlay, looked up through Context::lookup on two independent loads and compared with an independent resolver over the registry dump (exact, else any valid prefix split, else plural); lookup(canonicalize(n)) must equal lookup(n). Plus all 2^12 sub-databases of a pool of colliding definitions (incl. quantities named like units) x 100 concatenated query names, each loaded together with one entry parsed by the query parser (`a_half = sqrt(900 min^2)`, the way JSON currency data arrives) whose value must be 30 x whatever `min` denotes exact-first; plus load histories on one Context: a 10-line base database followed by every subset of 7 redefinitions (aliases re-pointed, values changed, prefixes changed) as a second file, and every ordered pair of them as a second and third file, x 64 names each. Non-trivial = the name has at least one reading or rink resolves it; distinct by (config, name)".into(),
+            rule: "every string prefix+name[+s] over all prefixes (and none) x all unit and base-unit names of the bundled database, with and without the currency overlay and in a context that holds a previous answer, looked up through Context::lookup on two independent loads and compared with an independent resolver over the registry dump (exact, else any valid prefix split, else plural); lookup(canonicalize(n)) must equal lookup(n). Plus all 2^12 sub-databases of a pool of colliding definitions (incl. quantities named like units) x 100 concatenated query names, each loaded together with one entry parsed by the query parser (`a_half = sqrt(900 min^2)`, the way JSON currency data arrives) whose value must be 30 x whatever `min` denotes exact-first; plus load histories on one Context: a 10-line base database followed by every subset of 7 redefinitions (aliases re-pointed, values changed, prefixes changed) as a second file, and every ordered pair of them as a second and third file, x 64 names each. Non-trivial = the name has at least one reading or rink resolves it; distinct by (config, name)".into(),
             assumptions: vec![
                 "the statement does not rank competing prefix splits: any valid split is accepted, determinism pins the choice".into(),
                 "the registry dump gives each exact name's value".into(),
@@ -273,7 +274,7 @@ impl Space for C07 {
         if f == 0 {
             format!(
                 "{}: {}{}{}",
-                if d[0] == 0 { "bundled" } else { "bundled+currency" },
+                ["bundled", "bundled+currency", "bundled, mid-session (an answer is stored)"][d[0] as usize],
                 self.prefixes[d[1] as usize],
                 self.names[d[2] as usize],
                 if d[3] == 1 { "s" } else { "" }
@@ -294,6 +295,7 @@ impl Space for C07 {
     fn reset(&mut self) {
         self.plain.clear();
         self.cur.clear();
+        self.session.clear();
     }
     fn run(&mut self, idx: u64) -> CaseOut {
         let (f, d) = self.fams.locate(idx);
@@ -304,7 +306,21 @@ impl Space for C07 {
                 self.names[d[2] as usize],
                 if d[3] == 1 { "s" } else { "" }
             );
-            let l = if d[0] == 0 {
+            let l = if d[0] == 2 {
+                // a context in the middle of a session: the previous-answer feature is on and an
+                // answer is stored.  Only the three documented spellings ans / ANS / _ may see it.
+                self.session.get(|| {
+                    let mk = || {
+                        let mut c = fresh_ctx();
+                        c.save_previous_result = true;
+                        let _ = rink_core::eval(&mut c, "3 foot");
+                        c
+                    };
+                    let a = mk();
+                    let dump = regdump::dump(&a);
+                    Loaded { a, b: mk(), dump }
+                })
+            } else if d[0] == 0 {
                 self.plain.get(|| {
                     let a = fresh_ctx();
                     let dump = regdump::dump(&a);
@@ -323,7 +339,7 @@ impl Space for C07 {
                 out.key = Some(hash64(&(d[0], &name)));
             }
             for (s, dt) in bad {
-                out = out.viol(s, format!("[{}] {}", if d[0] == 0 { "bundled" } else { "bundled+currency" }, dt));
+                out = out.viol(s, format!("[{}] {}", ["bundled", "bundled+currency", "bundled, mid-session (an answer is stored)"][d[0] as usize], dt));
             }
             out
         } else if f >= 2 {
